@@ -142,6 +142,7 @@ class Engine:
         for f in self.ast.fields_of(r):
             ft = TY.of_node(f)
             if ft.kind == 'record' and ft.name in ('omp_lock_t', 'omp_nest_lock_t'): continue     # no state any property reads
+            if ft.kind == 'lambda': continue      # std::function members: their targets are resolved at the call sites that use them
             out.append((f['name'], ft, name, f))
         self.layout_cache[name] = out
         return out
@@ -555,6 +556,9 @@ class Engine:
                     st.env[vid] = self.fresh_value(bt, 'any.' + rd.get('name', 'v'))
                     return LocalLV(vid)
                 r = self.fresh('anyobj.' + rd.get('name', 'v'), I); st.pc.append(r > 0)
+                if not t.ref:
+                    # a local variable that is an object of its own: not an element of a vector nor a member of another object
+                    st.pc.append(self.uf('tag', I, I)(r) == 0)
                 st.env[vid] = ObjLV(r, bt)
                 return st.env[vid]
             # global / static / constexpr variable
@@ -945,7 +949,14 @@ class Engine:
 
     def ev_LambdaExpr(self, n, st, fr):
         rec = n['inner'][0]
-        call_op = next(c for c in rec['inner'] if c.get('kind') == 'CXXMethodDecl' and c.get('name') == 'operator()')
+        call_op = next((c for c in rec['inner'] if c.get('kind') == 'CXXMethodDecl' and c.get('name') == 'operator()'), None)
+        if call_op is None:
+            # generic lambda: the call operator is a template; take its instantiation (the specialisation that has a body)
+            for c in rec['inner']:
+                if c.get('kind') == 'FunctionTemplateDecl' and c.get('name') == 'operator()':
+                    cands = [x for x in c.get('inner', []) if x.get('kind') == 'CXXMethodDecl' and self.ast.body_of(x) is not None]
+                    if cands: call_op = cands[-1]
+        if call_op is None: raise Unsupported('lambda without an instantiated call operator at %s' % self.where(n, fr))
         return Closure(n, dict(st.env), fr.this, call_op)
 
     def ev_CXXThrowExpr(self, n, st, fr):
@@ -1162,6 +1173,8 @@ class Engine:
             if 'anyInit' in c:
                 fname = c['anyInit']['name']
                 done.add(fname)
+                ft0 = TY.parse(c['anyInit'].get('type', {}).get('desugaredQualType') or c['anyInit'].get('type', {}).get('qualType', 'int'))
+                if ft0.kind == 'lambda' or (ft0.kind == 'record' and ft0.name in ('omp_lock_t', 'omp_nest_lock_t')): continue
                 flv = self.member_lv(st, this, fname, self.field_decl_class(c['anyInit']['id']) if c['anyInit']['id'] in self.ast.by_id else None) if isinstance(this, ObjLV) else LocalLV(this.var, this.path + (fname,))
                 e = c['inner'][0]
                 if e.get('kind') == 'CXXDefaultInitExpr' and not e.get('inner'):
